@@ -70,7 +70,13 @@ func (C02) Gen(rt *rapid.T, tier string) any {
 		kind = "osrelease"
 	}
 	if mode == "real" && rapid.Bool().Draw(rt, "containerd") {
-		kind = "containerd"
+		kind = oneOf(rt, []string{"containerd", "containerd-graph"}, "containerd.kind")
+	}
+	if pick(rt, 1000, "elfbomb") < 2 && os.Getenv("VERIF_X_ONLY") == "" || os.Getenv("VERIF_X_ONLY") == "elfbomb" {
+		kind = "elfbomb"
+	}
+	if os.Getenv("VERIF_X_ONLY") == "containerd-graph" {
+		kind = "containerd-graph"
 	}
 	maxV := 256 << 10
 	if chance(rt, 10, "bigvictim") {
@@ -165,8 +171,84 @@ func (C02) Gen(rt *rapid.T, tier string) any {
 			if len(src.Ops) == 0 || chance(rt, 50, "osr.more") {
 				src.Ops = append(src.Ops, genOps(rt, []byte(src.Text), "osr.op")...)
 			}
-			if p.add(FileSpec{Path: oneOf(rt, []string{"etc/os-release", "etc/os-release", "usr/lib/os-release"}, "osr.path"), Src: src}) {
+			fifo := chance(rt, 15, "osr.fifo")
+			if fifo {
+				src.Ops = nil // the file has been replaced by a named pipe nobody writes to
+			}
+			if p.add(FileSpec{Path: oneOf(rt, []string{"etc/os-release", "etc/os-release", "usr/lib/os-release"}, "osr.path"), Src: src, CorruptFifo: fifo}) {
 				victim = len(p.files) - 1
+			}
+		}
+	case "elfbomb":
+		// structured input: a small ELF file whose one section inflates to 256 MiB - a kernel
+		// module with an SHF_COMPRESSED .modinfo, or an executable with a cargo-auditable .dep-v0
+		i := p.next
+		p.next++
+		mib := oneOf(rt, []int{0, 1, 256, 256}, "elf.mib")
+		if chance(rt, 50, "elf.ko") {
+			e := &ElfSpec{Section: ".modinfo", Compressed: chance(rt, 85, "elf.comp"), InflateMiB: mib, Fill: oneOf(rt, []int{'a', 0}, "elf.fill"),
+				Text: "name=bomb\x00version=1.0\x00license=GPL\x00srcversion=ABCDEF\x00depends=\x00vermagic=6.1.0 SMP\x00"}
+			if chance(rt, 15, "elf.lie") {
+				e.ChSize = oneOf(rt, []int64{1, 1 << 20, 1 << 32, 1 << 40}, "elf.chsize")
+			}
+			if p.add(FileSpec{Path: fmt.Sprintf("lib/modules/6.1.0/kernel/drivers/bomb%d.ko", i), Src: Src{Elf: e}}) {
+				victim = len(p.files) - 1
+				avoid["os/kernel/module"] = true
+			}
+		} else {
+			if mib > 1 {
+				mib = 768 // go-rustaudit inflates with io.ReadAll: about 2.2 x the inflated size is allocated
+			}
+			e := &ElfSpec{Section: ".dep-v0", Zlib: true, InflateMiB: mib, Fill: ' ', Text: `{"packages":[{"name":"bomb","version":"0.1.0","source":"local","root":true}]}`}
+			if p.add(FileSpec{Path: fmt.Sprintf("usr/local/bin/bomb%d", i), Src: Src{Elf: e}, Exec: true}) {
+				victim = len(p.files) - 1
+				avoid["rust/cargoauditable"], avoid["go/binary"] = true, true
+			}
+		}
+	case "containerd-graph":
+		// structured input: valid bolt databases - a running container in meta.db, its CRI status
+		// file, and a snapshot parent graph (chain, cycle, self-parent, missing parent, long chain) in
+		// the overlayfs snapshotter's metadata.db
+		if mode == "real" && has(enabled, "containers/containerd") {
+			n := oneOf(rt, []int{1, 2, 3, 5, 8, 300}, "cg.n")
+			shape := oneOf(rt, []string{"chain", "chain", "self", "cycle", "missing", "random"}, "cg.shape")
+			name := func(k int) string { return fmt.Sprintf("default/%d/key%d", k+1, k) }
+			var snaps []BoltSnapshot
+			for k := 0; k < n; k++ {
+				sn := BoltSnapshot{Name: name(k), ID: uint64(k + 1)}
+				switch shape {
+				case "chain":
+					if k > 0 {
+						sn.Parent = name(k - 1)
+					}
+				case "self":
+					sn.Parent = name(k)
+				case "cycle":
+					sn.Parent = name((k + n - 1) % n)
+				case "missing":
+					sn.Parent = fmt.Sprintf("default/99/gone%d", k)
+				default:
+					if j := pick(rt, n+1, fmt.Sprintf("cg.p%d", k)); j < n {
+						sn.Parent = name(j)
+					}
+				}
+				snaps = append(snaps, sn)
+			}
+			var ctrs []BoltContainer
+			p.group++
+			g := p.group
+			for k, nc := 0, 1+pick(rt, 2, "cg.nc"); k < nc; k++ {
+				id := fmt.Sprintf("c%d", k)
+				ctrs = append(ctrs, BoltContainer{NS: oneOf(rt, []string{"default", "k8s.io"}, fmt.Sprintf("cg.ns%d", k)), ID: id, Image: "docker.io/library/busybox:latest",
+					Runtime: "io.containerd.runc.v2", Snapshotter: "overlayfs", SnapshotKey: fmt.Sprintf("key%d", pick(rt, n, fmt.Sprintf("cg.key%d", k)))})
+				if chance(rt, 85, fmt.Sprintf("cg.run%d", k)) {
+					p.add(FileSpec{Path: "var/lib/containerd/io.containerd.grpc.v1.cri/containers/" + id + "/status", Src: Src{Text: `{"Pid": 4242}`}, Group: g})
+				}
+			}
+			p.add(FileSpec{Path: "var/lib/containerd/io.containerd.metadata.v1.bolt/meta.db", Src: Src{Bolt: &BoltSpec{Containers: ctrs}}, Group: g})
+			if p.add(FileSpec{Path: "var/lib/containerd/io.containerd.snapshotter.v1.overlayfs/metadata.db", Src: Src{Bolt: &BoltSpec{Snapshots: snaps}}, Group: g}) {
+				victim = len(p.files) - 1
+				avoid["containers/containerd"] = true
 			}
 		}
 	case "canary":
@@ -302,7 +384,8 @@ func (C02) Gen(rt *rapid.T, tier string) any {
 		}
 	}
 	if !v.Src.HasOps() && (kind != "include" || rapid.Bool().Draw(rt, "incops")) && kind != "foreign" && (kind != "zipbomb" || rapid.Bool().Draw(rt, "zbops")) &&
-		kind != "symlink" && (kind != "nostat" || rapid.Bool().Draw(rt, "nsops")) {
+		kind != "symlink" && (kind != "nostat" || rapid.Bool().Draw(rt, "nsops")) && !v.CorruptFifo &&
+		((kind != "elfbomb" && kind != "containerd-graph") || chance(rt, 20, "structops")) {
 		v.Src.Ops = genOps(rt, vb, "op")
 	}
 	if kind == "foreign" && rapid.Bool().Draw(rt, "fops") {
@@ -312,6 +395,7 @@ func (C02) Gen(rt *rapid.T, tier string) any {
 	if mode == "sim" {
 		sc.Disk.Chunk = chunkFor(rt, totalSize(sc.Files))
 		sc.Disk.EOFWithData = rapid.Bool().Draw(rt, "eofdata")
+		sc.NoSeek = chance(rt, 10, "noseek")
 		if chance(rt, 40, "fault") {
 			k := rapid.IntRange(1, 6).Draw(rt, "fault.k")
 			if sc.Disk.Chunk > 0 && rapid.Bool().Draw(rt, "fault.late") {
@@ -507,7 +591,7 @@ func (c C02) evaluate(sc *C02Scenario) *sim.Outcome {
 	if err1 != nil || err2 != nil {
 		panic(fmt.Sprintf("harness: fixture unreadable: %v %v", err1, err2))
 	}
-	differs := string(hb) != string(cb) || v.CorruptLink != ""
+	differs := string(hb) != string(cb) || v.CorruptLink != "" || v.CorruptFifo
 	for _, o := range v.Src.Ops {
 		out.Count("op."+o.Kind, 1)
 	}
@@ -866,6 +950,11 @@ func minimiseC02(sc *C02Scenario, still func(*C02Scenario) bool) *C02Scenario {
 func memOver(er *ExtractRec, treeBytes int) (kind string, limitMB, gotMB int64) {
 	if treeBytes <= 1<<20 && er.AllocMB > 1024 {
 		return "process-growth", 1024, er.AllocMB
+	}
+	// bytes allocated by one Extract (any extractor but os/rpm, whose BerkeleyDB reader churns until
+	// its deadline): 1 GiB + 64 x tree size (+ 1 KiB per seam event for the simulated disk itself)
+	if lim := int64(1024+64*(treeBytes>>20)) + int64(er.Reads+er.Opens)>>10; er.Ext != "os/rpm" && er.Ext != "java/archive" && er.TotalMB > lim {
+		return "allocated", lim, er.TotalMB
 	}
 	// (the simulated disk itself allocates per seam event - about 1 KiB is allowed for each)
 	if lim := int64(64+8*(archiveMaxOpened>>20)+64*(treeBytes>>20)) + int64(er.Reads+er.Opens)>>10; er.Ext == "java/archive" && er.TotalMB > lim {
